@@ -279,6 +279,26 @@ def copied_handle_histories():
     return hs
 
 
+def replace_histories():
+    """move_p / copy of every kind of source onto every kind of existing destination, named directly or through its directory, then the destination read,
+    removed and read again: nothing of the replaced entry may linger (data, child lists, stored paths)"""
+    hs = []
+    srcs = {"file": [op("write_all", "/s/n", b"SRC")], "empty": [op("mkfile", "/s/n")], "dir": [op("mkdir_p", "/s/n/k"), op("write_all", "/s/n/f", b"in")],
+            "link-file": [op("write_all", "/tf", b"T"), op("symlink", "/s/n", "/tf")], "link-dir": [op("mkdir_p", "/td/x"), op("symlink", "/s/n", "/td")],
+            "dangling": [op("symlink", "/s/n", "/nowhere")]}
+    dsts = {"missing": [], "file": [op("write_all", "/d/n", b"OLD DATA")], "empty-file": [op("mkfile", "/d/n")], "empty-dir": [op("mkdir_p", "/d/n")],
+            "dir": [op("mkdir_p", "/d/n/sub"), op("write_all", "/d/n/f", b"old in")], "link": [op("write_all", "/of", b"O"), op("symlink", "/d/n", "/of")],
+            "link-dir": [op("mkdir_p", "/od"), op("symlink", "/d/n", "/od")]}
+    probes = [op("read_all", "/d/n"), op("is_symlink", "/d/n"), op("all_paths", "/"), op("remove", "/d/n"), op("read_all", "/d/n"), op("exists", "/d/n"),
+              op("read_all", "/s/n"), op("read_all", "/of"), op("read_all", "/tf")]
+    for sk, sops in srcs.items():
+        for dk, dops in dsts.items():
+            for call in ["move_p", "copy"]:
+                for dst in ["/d", "/d/n"]:
+                    hs.append("\t".join(["hist", "m", envspec(MEM_ENV), op("mkdir_p", "/s"), op("mkdir_p", "/d")] + sops + dops + [op(call, "/s/n", dst)] + probes))
+    return hs
+
+
 def stale_handle_histories(tier):
     """a write / append handle that outlives its file: the path is removed (or moved away) and possibly re-created as something
     else before the handle is flushed or dropped"""
@@ -315,6 +335,10 @@ def c03_streams(tier, rng, ctx):
     sts.append(Stream("stale-handles", "mirror", stale_handle_histories(tier), impl_env=dict(MEM_ENV), exhaustive=True,
                       rule="a write / append handle that outlives its file (removed, moved away, re-created as a directory, link or new file) and is then "
                            "written, flushed or dropped: results and complete state vs the mirror, WF checker on the implementation's state"))
+    sts.append(Stream("replace-by-move-or-copy", "mirror", replace_histories(), impl_env=dict(MEM_ENV), exhaustive=True, canon=hist_canon, canon_line=failed_traversal_canon,
+                      rule="move_p / copy of a file, empty file, directory, link to a file, link to a directory or dangling link onto a missing path, a file, an empty file, an empty "
+                           "or non-empty directory or a link, named directly or through its directory; then the destination read, removed and read again: results and state vs the "
+                           "mirror, WF checker on the implementation's state"))
     for st in sts:
         st.judge_query = wf_judge_query
         st.judge = lambda l, o: ("PANIC" in o or "POISONED" in o or "CRASH" in o)
@@ -365,8 +389,14 @@ for follow in ["", "follow=1"]:
                         WALK_OPTS.append(",".join(x for x in [follow, depth, order, cf, flt, cap] if x))
 
 
+ORDER_TREE = [op("mkdir_p", "/a/sub"), op("mkfile", "/a/main"), op("mkfile", "/a/sub/leaf"), op("mkdir_p", "/a 2"), op("mkdir_p", "/a-old"), op("mkfile", "/a-old/x"),
+              op("mkfile", "/a.bak"), op("mkfile", "/az"), op("mkdir_p", "/a+/k"), op("mkdir_p", "/t/data"), op("mkfile", "/t/data/z"), op("mkfile", "/t/data.txt"),
+              op("mkdir_p", "/t/data-1/q")]
+
+
 def random_tree_ops(rng, nmax):
-    names = ["a", "b", "c", "é", "a1", "B"]
+    # (a.b, a-b, "a b", a+: characters that sort below the separator, so a sort of whole path strings differs from a sort of names per directory)
+    names = ["a", "b", "c", "é", "a1", "B", "a.b", "a-b", "a b", "a+"]
     dirs = ["/"]
     ops = []
     for _ in range(rng.randint(1, nmax)):
@@ -464,6 +494,8 @@ def c08_streams(tier, rng, ctx):
         [op("mkdir_p", "/a"), op("mkdir_p", "/a1/d"), op("mkfile", "/a1/f"), op("mkfile", "/a/x"), op("symlink", "/a/l", "/a1"), op("symlink", "/a/m", "../a1/f")],
         [op("mkdir_p", "/t/data"), op("mkdir_p", "/t/data2"), op("mkfile", "/t/data2/f"), op("symlink", "/t/data/link", "/t/data2"), op("mkfile", "/t/data/z")],
         [op("mkdir_p", "/a/b"), op("mkdir_p", "/ab/c"), op("symlink", "/a/b/l", "../../ab"), op("symlink", "/ab/c/back", "/a")],
+        # a directory next to siblings named like it plus a character below the separator
+        ORDER_TREE,
     ]
     for ops in pre_trees:
         for wo in WALK_OPTS:
@@ -796,7 +828,22 @@ def c12_streams(tier, rng, ctx):
         hl += [c_path.line(fn, x, y) for x in hshort for y in hshort]
     rh = random_histories(rng, 2000 if tier == "quick" else 20000, 10, tier)
     bad = lambda l, o: ("PANIC" in o or "POISONED" in o or "CRASH" in o or "HANG" in o)
+    # extreme numeric arguments: depth bounds next to usize::MAX, modes and ids at u32::MAX (implementation only: the
+    # mirror counts depths in unary)
+    big = [str(2**64 - 1), str(2**64 - 2), str(2**63), str(2**40), str(2**32), "0", "1"]
+    xs = []
+    pre2 = [op("mkdir_p", "/a/b/c"), op("write_all", "/a/f", b"x"), op("symlink", "/a/l", "/a/b")]
+    for v in big:
+        for o in ["max=%s" % v, "min=%s" % v, "min=%s,max=3" % v, "min=2,max=%s" % v, "sort,max=%s,cf" % v, "follow=1,max=%s" % v]:
+            xs.append("\t".join(["hist", "m", envspec(MEM_ENV)] + pre2 + ["entries:%s:%s" % (hx("/a"), o), op("exists", "/")]))
+    for v in [2**32 - 1, 2**31, 0o7777, 0o10000, 0o177777, 0]:
+        for call in [op("chmod", "/a", v), op("mkdir_m", "/a/n", v), op("mkfile_m", "/a/g", v), op("chown", "/a", v, v), "chmod_b:%s:all=%d:" % (hx("/a"), v),
+                     "chmod_b:%s:dirs=%d,files=%d,follow=1:" % (hx("/a"), v, v), "chown_b:%s:uid=%d,gid=%d" % (hx("/a"), v, v), "copy_b:%s:%s:all=%d" % (hx("/a"), hx("/z"), v)]:
+            xs.append("\t".join(["hist", "m", envspec(MEM_ENV)] + pre2 + [call, op("mode", "/a"), op("owner", "/a"), op("is_exec", "/a"), op("is_readonly", "/a"), op("exists", "/")]))
     return [
+        Stream("c12-extreme-numbers", "pycheck", xs, impl_env=dict(MEM_ENV), pycheck=lambda l, o: not bad(l, o) and "\tb1\t#" in o, exhaustive=True,
+               rule="depth bounds next to usize::MAX, modes and ids up to u32::MAX, into every call that takes a number: no panic, "
+                    "no hang, and the instance answers afterwards"),
         Stream("c12-adversarial", "mirror", hs, impl_env=dict(MEM_ENV), canon=hist_canon, canon_line=failed_traversal_canon, judge=bad,
                nontrivial=lambda l, o: True,
                rule="adversarial argument strings into every Memfs method (each under catch_unwind, followed by a probe call that a poisoned lock would fail)"),
